@@ -277,14 +277,18 @@ class World:
                      s.convert_basis(c1.comp_basis())] for s in (P["s0"], P["s1"])]
         if name == "conv_gate":
             return [[g.to_choi_matrix(), g.to_choi_matrix_with_dict(), g.to_choi_matrix_with_sparsity(), g.to_process_matrix(),
-                     g.convert_to_comp_basis(), g.convert_basis(c1.comp_basis()), g.is_cp(), g.is_tp()] for g in (P["g0"], P["g2n"])] + \
+                     g.convert_to_comp_basis(), g.convert_basis(c1.comp_basis()), g.is_cp(), g.is_tp(),
+                     # both orderings of the computational basis, asked for on the shared system in both orders
+                     g.convert_to_comp_basis(mode="column_major"), g.convert_to_comp_basis(mode="row_major"),
+                     g.convert_basis(c1.comp_basis(mode="column_major")), g.convert_to_comp_basis()] for g in (P["g0"], P["g2n"])] + \
                    [P["g0"].to_kraus_matrices()]
         if name == "conv_povm":
             return [[p.matrices(), p.matrices_with_sparsity(), p.matrix(0), p.calc_eigenvalues(), p.convert_basis(c1.comp_basis())]
                     for p in (P["p0"], P["p1"])]
         if name == "conv_mprocess":
             return [[m.to_choi_matrix(0), m.to_choi_matrix_with_dict(1), m.to_choi_matrix_with_sparsity(1), m.to_process_matrix(0),
-                     m.to_povm(), m.convert_to_comp_basis(), m.is_cp(), m.is_sum_tp()] for m in (P["m0"], P["m1n"])]
+                     m.to_povm(), m.convert_to_comp_basis(), m.is_cp(), m.is_sum_tp(),
+                     m.convert_to_comp_basis(mode="column_major"), m.convert_to_comp_basis()] for m in (P["m0"], P["m1n"])]
         if name.startswith("proj_") or name.startswith("physproj_"):
             kind = name.split("_", 1)[1]
             o = {"state": P["s1"], "povm": P["p1"], "gate": P["g2n"], "mprocess": P["m1n"]}[kind]
